@@ -533,6 +533,108 @@ fn ebc_one(mask: u8, get: bool) -> Vec<(String, String)> {
     }
 }
 
+// ---- text members: every text of a message is data, not markup – it reads back code point for code point
+pub fn odd_texts() -> Vec<String> {
+    let bases = ["Alex Müller", "דוד", "名前", "a", "", "example.com"];
+    let tails = [
+        "\u{200E}", "\u{200F}", "\u{E007F}", "\u{E0001}\u{E0064}\u{E0065}\u{E002D}\u{E0043}\u{E0048}\u{200E}", "\u{E0001}\u{E0068}\u{E0065}\u{200F}", "\u{E0001}\u{E0065}\u{E006E}\u{E007F}", " ", "\n", "\r\n", "\u{0}", "\u{FEFF}", ".", "\u{301}", "\u{200D}", "\u{2028}", "\u{FFFD}", "\u{10FFFF}", "\u{202E}", "\u{7f}", "\\", "\"",
+    ];
+    let mut v: Vec<String> = vec![];
+    for b in bases {
+        v.push(b.to_string());
+        for t in tails {
+            v.push(format!("{b}{t}"));
+            v.push(format!("{t}{b}"));
+            v.push(format!("{b}{t}{b}"));
+        }
+    }
+    for s in ["Mu\u{308}ller", "M\u{fc}ller", "STRASSE", "Stra\u{df}e", "\u{1E9E}", "ｅｘａｍｐｌｅ．ｃｏｍ", "example\u{3002}com", "EXAMPLE.COM", "xn--bcher-kva.example", "bücher.example", "İstanbul", "ǆ", "\u{1F468}\u{200D}\u{1F469}\u{200D}\u{1F467}"] {
+        v.push(s.to_string());
+    }
+    // lengths around the 64-byte point at which an authenticator may truncate a name, a multi-byte
+    // character across it, and texts whose CBOR length needs 1, 2 and 4 bytes
+    for n in [23usize, 24, 63, 64, 65, 255, 256, 65535, 65536, 70000] {
+        v.push("n".repeat(n));
+    }
+    v.push(format!("{}é", "n".repeat(63)));
+    v.push("é".repeat(64));
+    v.push(format!("{}\u{1F600}", "n".repeat(62)));
+    v.sort();
+    v.dedup();
+    v
+}
+const TEXT_SLOTS: [&str; 8] = ["makeCredential.request/rp.id", "makeCredential.request/rp.name", "makeCredential.request/user.name", "makeCredential.request/user.displayName", "getAssertion.request/rpId", "getAssertion.response/user.name", "getAssertion.response/user.displayName", "makeCredential.response/fmt"];
+fn text_one(slot: usize, text: &str) -> Vec<(String, String)> {
+    let t = text.to_string();
+    let pick = |k: usize, d: &str| if slot == k { t.clone() } else { d.to_string() };
+    let r: Result<Result<String, String>, String> = par::catch(|| {
+        let mut bytes = vec![];
+        match slot {
+            0..=3 => {
+                let m = make_credential::Request {
+                    client_data_hash: vec![1; 32].into(),
+                    rp: make_credential::PublicKeyCredentialRpEntity { id: pick(0, "example.com"), name: Some(pick(1, "Example")) },
+                    user: webauthn::PublicKeyCredentialUserEntity { id: vec![7; 3].into(), name: pick(2, "n"), display_name: pick(3, "dn") },
+                    pub_key_cred_params: vec![es256_param()],
+                    exclude_list: None,
+                    extensions: None,
+                    options: make_credential::Options { rk: true, up: true, uv: true },
+                    pin_auth: None,
+                    pin_protocol: None,
+                };
+                ciborium::ser::into_writer(&m, &mut bytes).map_err(|e| e.to_string())?;
+                let b: make_credential::Request = ciborium::de::from_reader(&bytes[..]).map_err(|e| e.to_string())?;
+                Ok(match slot {
+                    0 => b.rp.id,
+                    1 => b.rp.name.unwrap_or_else(|| "<absent>".into()),
+                    2 => b.user.name,
+                    _ => b.user.display_name,
+                })
+            }
+            4 => {
+                let m = get_assertion::Request { rp_id: t.clone(), client_data_hash: vec![2; 32].into(), allow_list: None, extensions: None, options: get_assertion::Options { rk: false, up: true, uv: true }, pin_auth: None, pin_protocol: None };
+                ciborium::ser::into_writer(&m, &mut bytes).map_err(|e| e.to_string())?;
+                let b: get_assertion::Request = ciborium::de::from_reader(&bytes[..]).map_err(|e| e.to_string())?;
+                Ok(b.rp_id)
+            }
+            5 | 6 => {
+                let m = get_assertion::Response {
+                    credential: Some(desc(false, 3)),
+                    auth_data: auth_data(0),
+                    signature: vec![0x30, 0x06, 2, 1, 1, 2, 1, 1].into(),
+                    user: Some(webauthn::PublicKeyCredentialUserEntity { id: vec![1, 2].into(), name: pick(5, "n"), display_name: pick(6, "dn") }),
+                    number_of_credentials: None,
+                    user_selected: None,
+                    large_blob_key: None,
+                    unsigned_extension_outputs: None,
+                };
+                ciborium::ser::into_writer(&m, &mut bytes).map_err(|e| e.to_string())?;
+                let b: get_assertion::Response = ciborium::de::from_reader(&bytes[..]).map_err(|e| e.to_string())?;
+                let u = b.user.ok_or("user member lost")?;
+                Ok(if slot == 5 { u.name } else { u.display_name })
+            }
+            _ => {
+                let m = make_credential::Response { fmt: t.clone(), auth_data: auth_data(1), att_stmt: Cbor::Map(vec![]), ep_att: None, large_blob_key: None, unsigned_extension_outputs: None };
+                ciborium::ser::into_writer(&m, &mut bytes).map_err(|e| e.to_string())?;
+                let b: make_credential::Response = ciborium::de::from_reader(&bytes[..]).map_err(|e| e.to_string())?;
+                Ok(b.fmt)
+            }
+        }
+    });
+    let what = TEXT_SLOTS[slot];
+    let ty = what.split('/').next().unwrap_or("");
+    let shown: String = text.chars().take(40).flat_map(|c| c.escape_unicode()).collect();
+    match r {
+        Err(p) => vec![(format!("type={ty}/kind=panic-text-member"), format!("{what} = \"{shown}\" ({} bytes): round trip panicked: {p}", text.len()))],
+        Ok(Err(e)) => vec![(format!("type={ty}/kind=round-trip-fails"), format!("{what} = \"{shown}\" ({} bytes): own serialisation does not parse: {e}", text.len()))],
+        Ok(Ok(back)) if back != text => {
+            let b: String = back.chars().take(40).flat_map(|c| c.escape_unicode()).collect();
+            vec![(format!("type={ty}/kind=round-trip-differs"), format!("{what} = \"{shown}\" ({} bytes) reads back as \"{b}\" ({} bytes)", text.len(), back.len()))]
+        }
+        Ok(Ok(_)) => vec![],
+    }
+}
+
 // ---- status bytes
 
 fn status_findings() -> (Vec<Finding>, u64) {
@@ -587,6 +689,16 @@ pub fn run(ctx: &Ctx) -> Result<Run, String> {
             }
         }
     }
+    let texts = odd_texts();
+    for (ti, t) in texts.iter().enumerate() {
+        for slot in 0..TEXT_SLOTS.len() {
+            ebc.case(&(slot, ti, "text"), true, "text-member");
+            for (k, d) in text_one(slot, t) {
+                ebc.finding(Finding::new(k, d, json!({"text_member": {"slot": slot, "text": t}})));
+            }
+        }
+    }
+    ebc.count("text_member_round_trips", (texts.len() * TEXT_SLOTS.len()) as u64);
     let cs = cases(ctx.tier);
     let mut stats = par::sweep_cases(&cs, ctx.threads, |c, st| {
         let (fs, o) = eval(c);
@@ -604,7 +716,7 @@ pub fn run(ctx: &Ctx) -> Result<Run, String> {
     }
     let mut run = Run::from_stats(
         "exploration",
-        "per-credential PRF inputs for every subset of six ids of different lengths and byte orders inside makeCredential / getAssertion requests, compared entry by entry after the round trip; 2..300 unknown members appended at once to the full and to the minimal message of each type (counts around the map-header boundaries 23/24 and 255/256): still the same message; for each of the six CTAP2 message types: all presence patterns of the optional members x 4 nested-value variants (one with repeated entries in every list, one with every nested optional structure and list present but empty; plus a variant with byte-string members of more than 4 KiB), serialised with ciborium and inspected as a generic CBOR value (one map spanning all serialised bytes; keys = the specification's integers for the present members, ascending, no nulls), round-tripped; mutations of the encodings: every integer key 0..255 not assigned to a member inserted (every position for the full pattern, at the end otherwise; all positions in thorough) with int/map/bytes values, unknown text keys at every position (also case and underscore variants of every member name), each required member removed or moved to a key of 2, 3 or 5 bytes with the same low byte (must be an error), each present member repeated under such a wide key with another value (ignored or rejected, never taken), each present member duplicated, options omitted / empty; all 256 status bytes converted both ways and injected as lookup failure under Client::authenticate. Every case is distinct",
+        "every text member (RP id and name, user name and displayName of requests and of assertion responses, fmt) with ~400 texts – bidi marks, language tags, separators, NUL, BOM, combining marks, NFC/NFD, full-width forms, lengths around 23/64/255/65535 – reads back code point for code point; per-credential PRF inputs for every subset of six ids of different lengths and byte orders inside makeCredential / getAssertion requests, compared entry by entry after the round trip; 2..300 unknown members appended at once to the full and to the minimal message of each type (counts around the map-header boundaries 23/24 and 255/256): still the same message; for each of the six CTAP2 message types: all presence patterns of the optional members x 4 nested-value variants (one with repeated entries in every list, one with every nested optional structure and list present but empty; plus a variant with byte-string members of more than 4 KiB), serialised with ciborium and inspected as a generic CBOR value (one map spanning all serialised bytes; keys = the specification's integers for the present members, ascending, no nulls), round-tripped; mutations of the encodings: every integer key 0..255 not assigned to a member inserted (every position for the full pattern, at the end otherwise; all positions in thorough) with int/map/bytes values, unknown text keys at every position (also case and underscore variants of every member name), each required member removed or moved to a key of 2, 3 or 5 bytes with the same low byte (must be an error), each present member repeated under such a wide key with another value (ignored or rejected, never taken), each present member duplicated, options omitted / empty; all 256 status bytes converted both ways and injected as lookup failure under Client::authenticate. Every case is distinct",
         true,
         stats,
     );
@@ -615,6 +727,9 @@ pub fn run(ctx: &Ctx) -> Result<Run, String> {
 pub fn replay(_ctx: &Ctx, case: &Value) -> Result<Vec<Finding>, String> {
     if let Some(e) = case.get("ebc") {
         return Ok(ebc_one(e["mask"].as_u64().unwrap_or(0) as u8, e["get"].as_bool().unwrap_or(false)).into_iter().map(|(k, d)| Finding::new(k, d, case.clone())).collect());
+    }
+    if let Some(t) = case.get("text_member") {
+        return Ok(text_one(t["slot"].as_u64().unwrap_or(0) as usize % TEXT_SLOTS.len(), t["text"].as_str().unwrap_or("")).into_iter().map(|(k, d)| Finding::new(k, d, case.clone())).collect());
     }
     if case.get("status_byte").is_some() {
         let b = case["status_byte"].as_u64().unwrap_or(0) as u8;
